@@ -766,6 +766,10 @@ def _layouts(dt):
         "3d_perm": base.reshape(2, 3, 4).transpose(1, 2, 0),
         "empty": base[:0],
         "0d": base[3:4].reshape(()),
+        # the same numbers stored in the other byte order (files and memory maps of big-endian data; M11-C13): the VALUES
+        # are what is transferred, in the destination dtype's native representation
+        "1d_swapped": base[:5].astype(np.dtype(dt).newbyteorder("S")),
+        "2d_T_swapped": base.reshape(6, 4).astype(np.dtype(dt).newbyteorder("S")).T,
     }
 
 
@@ -811,8 +815,8 @@ def numpy_concrete(tr):
             for j, ddt in enumerate(DTYPES):
                 if tr == "quick" and not (sdt == ddt or (i + j) % 3 == 0):
                     continue
-                for li, lay in enumerate(("1d", "2d_C", "2d_F", "2d_T", "strided", "3d_perm", "empty", "0d")):
-                    if tr == "quick" and (i + j + li) % 2:
+                for li, lay in enumerate(("1d", "2d_C", "2d_F", "2d_T", "strided", "3d_perm", "empty", "0d", "1d_swapped", "2d_T_swapped")):
+                    if tr == "quick" and (i + j + li) % 2 and not (lay == "1d_swapped" and sdt == ddt):
                         continue
                     for off in offs:
                         cases.append((kind, sdt, ddt, lay, off))
@@ -881,7 +885,7 @@ def main(pid):
         "capacity, offsets, lengths": "unbounded integers in [0, 2^62) (solver); content uninterpreted",
         "precondition": "ranges inside both containers (the documented caller contract)",
         "primitives": sorted(set(j[0] for j in jobs)),
-        "numpy_half": "SOLVER: element count, every dimension of the requested shape (<= 3 axes), offset, capacity; ENUMERATED: (source dtype, destination dtype) pairs and view dtypes (5+4 quick, all 100+30 thorough). The conversion and the element order of the source are stub S16 (opaque content); they are observed concretely on the real buffers: %d cases over 10x10 dtype pairs x 8 source layouts (C, Fortran, transposed, strided, permuted 3-D, empty, 0-d) x offsets, incl. aliasing of the typed views" % len(ncases),
+        "numpy_half": "SOLVER: element count, every dimension of the requested shape (<= 3 axes), offset, capacity; ENUMERATED: (source dtype, destination dtype) pairs and view dtypes (5+4 quick, all 100+30 thorough). The conversion and the element order of the source are stub S16 (opaque content); they are observed concretely on the real buffers: %d cases over 10x10 dtype pairs x 10 source layouts (C, Fortran, transposed, strided, permuted 3-D, empty, 0-d, non-native byte order 1-D and transposed) x offsets, incl. aliasing of the typed views" % len(ncases),
         "outside_claim": ["the values NumPy produces when converting between dtypes", "GPU buffers", "ranges outside the containers"],
     }
     rep.assumptions = ["S6: bytearray / 1-D int8 ndarray slice semantics as modelled by SymBytes (validated this run against the real containers on %d small cases)" % nval, "len/bytearray inside xobjects.context_cpu are replaced by versions that accept the model"]
